@@ -583,6 +583,13 @@ func (e *SpecEnv) evalCall(x SCall) SV {
 	case "cap":
 		v := arg(0)
 		return SV{Term: "(scap " + v.Term + ")", Typ: intT}
+	case "arr":
+		// identity of the backing array of a slice (0 for nil)
+		v := arg(0)
+		return SV{Term: "(sarr " + v.Term + ")", Typ: intT}
+	case "off":
+		v := arg(0)
+		return SV{Term: "(soff " + v.Term + ")", Typ: intT}
 	case "ite":
 		c, a, b := arg(0), arg(1), arg(2)
 		if a.Loc != nil || b.Loc != nil {
